@@ -429,6 +429,51 @@ class SynEngine:
             self.found[key] = min(self.found.get(key, 99), N)
         self.judge_circuit(result, n, m, N, care, vals, basis_tts, cons, cons_calls, desc)
         self.res.states.add(observe.snap(result)[0].shape_digest() if result is not None else 'none')
+        # incremental use: one more constraint on the same finder, then ask again
+        if rng.random() < 0.25 and not op.get('f') and internal:
+            try:
+                extra = None
+                free = [g for g in internal if g not in cons['fix'] and g >= 2]
+                if free and rng.random() < 0.6:
+                    g = rng.choice(free)
+                    a, b = sorted(rng.sample(range(g), 2))
+                    mode = rng.choice(('both', 'first', 'second'))
+                    fx = {'first': a, 'second': b} if mode == 'both' else ({'first': a} if mode == 'first' else {'second': b})
+                    kw2 = {('first_predecessor' if k == 'first' else 'second_predecessor'): v for k, v in fx.items()}
+                    finder.fix_gate(g, **kw2)
+                    cons['fix'][g] = fx
+                    extra = ('fix_gate', g, kw2)
+                else:
+                    to = rng.choice(internal)
+                    if to >= 1:
+                        fr = rng.randrange(to)
+                        finder.forbid_wire(fr, to)
+                        cons['forbid'].add((fr, to))
+                        extra = ('forbid_wire', fr, to)
+                if extra is not None:
+                    cons_calls = cons_calls + [extra]
+                    st.bump('constraint-added-after-a-first-find_circuit')
+                    res2 = exc2 = None
+                    try:
+                        res2 = finder.find_circuit(**kw) if solver == 'default' else finder.find_circuit(solver, **kw)
+                    except Exception as e:  # noqa
+                        exc2 = e
+                    exists2 = brute_force(n, N, care, value, basis_tts, cons, self.cfg['brute_budget']) if est <= self.cfg['brute_budget'] * 20 else None
+                    d2 = desc + f' [then {extra[0]}{extra[1:]} and find_circuit again]'
+                    if exc2 is not None:
+                        if exc_name(exc2) != 'NoSolutionError':
+                            self.violate('find-raised', f'{exc_name(exc2)}:after-added-constraint', f'{d2}: {exc_name(exc2)}: {exc2}')
+                        elif exists2 is True:
+                            self.violate('completeness', 'after-added-constraint:' + self._cons_tag([extra]), f'NoSolutionError although a circuit exists: {d2}')
+                    else:
+                        if exists2 is False:
+                            self.violate('soundness', 'circuit-where-none-exists:after-added-constraint', d2)
+                        self.judge_circuit(res2, n, m, N, care, vals, basis_tts, cons, cons_calls, d2)
+                    return
+            except Exception as e:  # noqa
+                if not is_instance_named(e, ('CircuitFinderError',)):
+                    self.violate('setup-raised', f'{exc_name(e)}:incremental', str(e))
+                return
         # find_circuit twice on the same finder
         if rng.random() < 0.25 and not op.get('f'):
             try:
